@@ -283,7 +283,29 @@ pub fn run(rep: &mut Report, tier: &str, seed: u64, shard: u64, nshards: u64) {
     let cfg = GenCfg::front();
     let corpus = corpus();
     rep.hist_add("inputs", "corpus-modules", corpus.len() as u64);
+    // self-referential definitions: legal text for the parser, a trap for everything that follows references
+    const CYCLES: &[&str] = &[
+        "A ::= A",
+        "A ::= B\nB ::= A",
+        "A ::= B\nB ::= C\nC ::= A",
+        "A ::= [5] A",
+        "A ::= CHOICE { a A, b BOOLEAN }",
+        "A ::= CHOICE { a B }\nB ::= CHOICE { b A }",
+        "A ::= SET { a A OPTIONAL, b B }\nB ::= A",
+        "A ::= SEQUENCE { a A }",
+        "A ::= SEQUENCE OF A",
+        "A ::= SET OF A",
+        "A ::= SEQUENCE { a A DEFAULT x }",
+        "A ::= INTEGER (a..b)\na A ::= b\nb A ::= a",
+        "a INTEGER ::= a",
+        "a INTEGER ::= b\nb INTEGER ::= a\nT ::= INTEGER (a..b)",
+        "T ::= OCTET STRING (SIZE (n))\nn INTEGER ::= n",
+        "FALSE ::= FALSE",
+    ];
     let make = |i: u64| -> (String, String, Vec<&'static str>) {
+        if shard == 0 && (i as usize) < CYCLES.len() {
+            return (format!("Cyc DEFINITIONS AUTOMATIC TAGS ::= BEGIN\n{}\nEND\n", CYCLES[i as usize]), "self-reference".to_string(), vec!["self-reference"]);
+        }
         let mut rng = Rng::derive(seed, &["C14"], shard * 100_000_000 + i);
         match rng.below(10) {
             0 => (soup(&mut rng), "soup".to_string(), vec!["soup"]),
@@ -299,6 +321,15 @@ pub fn run(rep: &mut Report, tier: &str, seed: u64, shard: u64, nshards: u64) {
             }
         }
     };
+    // replay of one case in this process (no sandbox): C14_ONLY=<case index>, with --shard/--nshards as recorded
+    if let Ok(only) = std::env::var("C14_ONLY") {
+        if let Ok(i) = only.parse::<u64>() {
+            let (text, origin, faults) = make(i);
+            eprintln!("--- case {} of shard {}: origin {} faults {:?}\n{}\n---", i, shard, origin, faults, text);
+            run_stages(rep, &text, &origin, &faults);
+            return;
+        }
+    }
     let sb = SandboxCfg { batch: 1000, ..Default::default() };
     run_batches(
         rep,
@@ -316,6 +347,10 @@ pub fn run(rep: &mut Report, tier: &str, seed: u64, shard: u64, nshards: u64) {
             ("c14".to_string(), json!({"origin": origin, "faults": faults, "text": text}) as Value)
         },
     );
+    if shard == 0 {
+        let c = rep.hist.get("faults").and_then(|h| h.get("self-reference")).copied().unwrap_or(0);
+        rep.floor.insert("fault:self-reference".into(), c);
+    }
     for f in ["delete-token", "duplicate-token", "swap-tokens", "replace-token", "insert-token", "delete-char", "insert-char", "truncate-token", "truncate-char", "soup"] {
         let c = rep.hist.get("faults").and_then(|h| h.get(f)).copied().unwrap_or(0);
         rep.floor.insert(format!("fault:{}", f), c);
